@@ -500,7 +500,7 @@ pub fn check_point(p: &Point) -> Result<&'static str, Viol> {
                 }
             }
             // store_proved_transaction on every row in turn (whatever its state: the method and
-            // ProvedTransaction::apply do not restrict it). Documented effect: the proven bytes
+            // ProvedTransaction::apply accept any). Documented effect on a row not yet broadcast: the proven bytes
             // replace the stored ones, the lock owner carried by the proof is recorded, the row
             // becomes Proved — and nothing else changes (mark, failure report, schedule ...). The
             // expectation is rebuilt from the parts, not by calling the code under test.
@@ -514,7 +514,9 @@ pub fn check_point(p: &Point) -> Result<&'static str, Viol> {
                         .iter()
                         .enumerate()
                         .map(|(n, t)| {
-                            if n != i {
+                            // A row that is already Broadcast or Mined is left exactly as it is
+                            // (the late proof is dropped; a row never moves backwards).
+                            if n != i || matches!(t.state(), MigrationTxState::Broadcast { .. } | MigrationTxState::Mined { .. }) {
                                 return t.clone();
                             }
                             MigrationTransaction::from_parts(
